@@ -58,11 +58,82 @@ func guardSignature(p *core.Prog, cl *ssa.Function) []string {
 				continue
 			}
 			// the closest edge: the one whose If block is dominated by all others
-			best := eds[0]
-			for _, e := range eds[1:] {
-				if best.If.Block().Dominates(e.If.Block()) {
-					best = e
+			closest := func(es []edgeCond) edgeCond {
+				b := es[0]
+				for _, e := range es[1:] {
+					if b.If.Block().Dominates(e.If.Block()) {
+						b = e
+					}
 				}
+				return b
+			}
+			best := closest(eds)
+			// a shared loading helper may test a fall-back parameter last (`if fallback == nil { return
+			// ErrNotFound }`): for a closure that hands it nil the test is vacuous and the guard is the next
+			// edge out; for a closure that hands it something the return is unreachable
+			unreachable := false
+			for fn != cl && len(eds) > 0 {
+				ci := core.Cond(best.If.Cond)
+				prm, isPrm := core.Strip(ci.X).(*ssa.Parameter)
+				if ci.Kind != "nilcmp" || !isPrm || prm.Parent() != fn {
+					break
+				}
+				truth := best.Succ == 0
+				if ci.Negate {
+					truth = !truth
+				}
+				onNil := (ci.Op == token.EQL) == truth
+				pi := -1
+				for i, q := range fn.Params {
+					if q == prm {
+						pi = i
+					}
+				}
+				allNil, allSet, sites := true, true, 0
+				for _, h := range p.Helpers(cl) {
+					for _, c := range core.Calls(h) {
+						if c.Common().StaticCallee() != fn || pi < 0 || pi >= len(c.Common().Args) {
+							continue
+						}
+						sites++
+						a := c.Common().Args[pi]
+						if k, isC := a.(*ssa.Const); isC && k.IsNil() {
+							allSet = false
+						} else if _, isC := core.ConstString(core.Strip(a)); isC {
+							allNil = false
+						} else {
+							allNil, allSet = false, false
+						}
+					}
+				}
+				if sites == 0 {
+					break
+				}
+				if (onNil && allSet) || (!onNil && allNil) {
+					unreachable = true
+					break
+				}
+				if !((onNil && allNil) || (!onNil && allSet)) {
+					break
+				}
+				var rest []edgeCond
+				for _, e := range eds {
+					if e != best {
+						rest = append(rest, e)
+					}
+				}
+				eds = rest
+				if len(eds) == 0 {
+					break
+				}
+				best = closest(eds)
+			}
+			if unreachable {
+				continue
+			}
+			if len(eds) == 0 {
+				out = append(out, g+"@unconditional")
+				continue
 			}
 			for _, sh := range impliedShapes(best, 0) {
 				out = append(out, g+"@"+sh)
